@@ -27,6 +27,18 @@ type twCfg struct {
 	Eager  bool   `json:"eager_feed"`
 	Unit   string `json:"time_unit,omitempty"` // "" = ms; "ss": the ts column holds seconds; "ns": nanoseconds
 	GapMs  int64  `json:"gap_ms,omitempty"`    // the second half of the stream (and the sentinel) lies this much later in event time
+	Block  bool   `json:"block_slow_consumer,omitempty"` // strategy block without timeout, window output buffer of 1, sink taking 20 ms per batch
+}
+
+func twOpts(c twCfg) detOpts {
+	o := detOpts{Eager: c.Eager, Horizon: 500 * vtime.Millisecond}
+	if c.Block {
+		p := smallPerf("block", 64, 64, 1)
+		o.Perf = &p
+		o.SinkDelay = 20 * vtime.Millisecond
+		o.Horizon = 2 * vtime.Second
+	}
+	return o
 }
 
 // twUnitScale converts a timestamp in ms to the value of the ts column.
@@ -268,6 +280,7 @@ func twConfigs(kind, tier string) []twCfg {
 		for _, eager := range []bool{false, true} {
 			out = append(out, twCfg{Kind: kind, SizeMs: 2000, OOOMs: 1000, Keys: 1, MaxL: maxL, Eager: eager, GapMs: 36 * 3600 * 1000})
 		}
+		out = append(out, twCfg{Kind: kind, SizeMs: 2000, OOOMs: 0, Keys: 1, MaxL: maxL, Eager: false, Block: true})
 		return out
 	}
 	for _, ss := range [][2]int64{{4000, 2000}, {3000, 2000}, {2000, 2000}, {2000, 3000}, {6000, 2000}} {
@@ -287,6 +300,7 @@ func twConfigs(kind, tier string) []twCfg {
 	for _, eager := range []bool{false, true} {
 		out = append(out, twCfg{Kind: kind, SizeMs: 4000, Slide: 2000, OOOMs: 1000, Keys: 1, MaxL: maxL, Eager: eager, GapMs: 36 * 3600 * 1000})
 	}
+	out = append(out, twCfg{Kind: kind, SizeMs: 4000, Slide: 2000, OOOMs: 0, Keys: 1, MaxL: maxL, Eager: false, Block: true})
 	return out
 }
 
@@ -320,7 +334,7 @@ func twRunEnum(prop string, u fw.Unit, cfgs []twCfg) fw.Result {
 					continue
 				}
 				evs := twEvents(c, seq, kb<<1)
-				r := detExec(sql, detOpts{Eager: c.Eager, Horizon: 500 * vtime.Millisecond}, twFeed(c, evs))
+				r := detExec(sql, twOpts(c), twFeed(c, evs))
 				a.r.Evaluations++
 				a.r.States++
 				a.r.Transitions += int64(r.Steps)
@@ -551,7 +565,7 @@ func twReplay(prop, kind string, v fw.Violation) (string, bool) {
 	out := ""
 	failed := false
 	for i := 0; i < 2; i++ {
-		r := detExec(twSQL(c), detOpts{Eager: c.Eager, Horizon: 500 * vtime.Millisecond}, twFeed(c, evs))
+		r := detExec(twSQL(c), twOpts(c), twFeed(c, evs))
 		ds, _ := twDeliveries(c, r.Batches)
 		k, what := twCompare(c, evs, ds)
 		out += fmt.Sprintf("run %d: status=%s deliveries=%s verdict=%s %s\n", i+1, r.Status, js(ds), k, what)
